@@ -563,6 +563,15 @@ impl CheckPoints {
             return Err(StatusCode::CheckPointsIsUnaligned.with_context(errmsg));
         }
         let next_number = self.number_of_next_check_point();
+        if start_number < next_number {
+            // The answer to a duplicated request (the timer does not track outstanding
+            // requests): these check points were already handled.
+            let errmsg = format!(
+                "check points from {} are already known, next is {}",
+                start_number, next_number
+            );
+            return Err(StatusCode::Ignore.with_context(errmsg));
+        }
         if start_number != next_number {
             let errmsg = format!(
                 "expect starting from {} but got {}",
